@@ -5,6 +5,14 @@ ENUM: every expected list (1-3 items, with item alternatives / item partial cred
 submission of 1-5 symbols over {a, b, c, z, blank} x 16 flag sets x delimiters x answer forms,
 graded by the real SingleListGrader over the author-level TableGrader, and compared with the
 closed-form credit formula evaluated with a brute-force matching.
+
+Further families widen single dimensions of that space: options left at their documented defaults (minimal
+configuration), lists of 4-5 expected and up to 7 submitted items with repeated expected items (subset-DP oracle in
+refs/c07_ref.py), two-call histories of inferred expect values on a fresh grader, a delimiter alphabet (regex
+metacharacters, whitespace, multi-character, non-ASCII), author objects shared between graders and graders rebuilt from
+their own config, NumericalGrader/FormulaGrader as subgrader, four spellings of alternative lists with their messages,
+nesting with answer messages / independent inner options / string and inferred forms / a subclass as inner grader /
+blank entries, and credit tables with tiny credits and answer credits 0, 1e-7 and 1.
 """
 import itertools
 from ..core import Family, Result, viol, HarnessError
@@ -22,7 +30,16 @@ EXPLANATION = ('states = distinct (configuration, submission) cases; transitions
 ASSUMPTIONS = ['item credits come from a fixed table: self-match 1, a<->b 1/2, z never matches',
                'when several optimal matchings exist and they differ in whether every item earned credit, '
                'the presence of the answer-level message is not constrained',
-               'grades compared within 1e-9']
+               'grades compared within 1e-9',
+               'nested lists: an outer item "earned credit" for the purpose of the answer message only if every innermost '
+               'item in it earned credit (docs: "The message is only shown if all of the inputs received credit")',
+               'nested lists: a blank entry inside a surplus item of an ORDERED outer list is never compared; whether it '
+               'raises is not constrained',
+               'with several alternative lists a message may be shown only for a list that attains the returned grade',
+               'long_lists: the optimal assignment is computed by a subset dynamic programme (refs/c07_ref.py) that is '
+               'compared with plain enumeration of permutations on 1420 small matrices in every worker before use',
+               'math_subgraders: FormulaGrader samples x five times from its default range [1,5]; x+1, 2*x and x do not agree '
+               'within tolerance at all five samples for any draw (they only meet at x=1 and x=0)']
 
 EPS = 1e-9
 ITEMS = ['a', 'b', 'c', 'z', '']
@@ -350,14 +367,20 @@ def outer_formula(T, n_exp, n_sub, ordered, partial_credit):
     return bracket, must, may
 
 
+class AuthorsListGrader(SingleListGrader):
+    """a subclass without any change of behaviour: must be treated like SingleListGrader wherever one is nested"""
+
+
 class Nested(Family):
     name = 'nested'
     timeout = 30.0
     rule = ('one level of nesting (outer ";" inner ","), expected [[a,b],[b,a]] and [[a,b],[c]]-like lists and one whose inner '
             'lists are answer dictionaries with their own credit 0.5, every submission of 2 [thorough: 1..3] outer items each an '
-            'inner list of 1..3 [quick 2] items over {a,b,z} x outer/inner ordered x outer/inner partial_credit (independent), '
+            'inner list of 1..3 [quick 2] items over {a,b,z} x outer/inner ordered x outer/inner partial_credit (independent; '
+            'equal for submissions of 3 outer items), '
             'outer answer worth 0.5 with a message; the plain expected lists are additionally written as ONE string '
-            '"a,b;b,a" in the answers and inferred from the expect argument (2 flag sets each): inner grades by the formula, '
+            '"a,b;b,a" in the answers (there the inner grader is an instance of a subclass of SingleListGrader) and inferred from '
+            'the expect argument (2 flag sets each): inner grades by the formula, '
             'outer grade by the formula over inner grades; the answer message requires every innermost item to have earned '
             'credit')
 
@@ -388,7 +411,9 @@ class Nested(Family):
         if key not in self.graders:
             oo, io, opc, ipc = flags
             expected = self.EXPECTED[e]
-            inner = SingleListGrader(subgrader=TableGrader(table=TABLE), ordered=io, partial_credit=ipc, delimiter=',')
+            # the string form nests an instance of an author's SUBCLASS of SingleListGrader
+            cls = AuthorsListGrader if form == 'string' else SingleListGrader
+            inner = cls(subgrader=TableGrader(table=TABLE), ordered=io, partial_credit=ipc, delimiter=',')
             kw = dict(subgrader=inner, ordered=oo, partial_credit=opc, delimiter=';')
             if form == 'list':
                 fresh = [dict(x, expect=list(x['expect'])) if isinstance(x, dict) else list(x) for x in expected]
@@ -405,7 +430,8 @@ class Nested(Family):
         submitted = [INNER[k] for k in combo]
         text = ';'.join(','.join(x) for x in submitted)
         calls = 0
-        runs = [('list', f) for f in itertools.product((False, True), repeat=4)]
+        runs = [('list', f) for f in itertools.product((False, True), repeat=4)
+                if len(combo) < 3 or f[2] == f[3]]       # 3 outer items (thorough): inner and outer partial_credit equal
         if plain:
             runs += [(form, f) for form in ('string', 'infer') for f in self.FORM_FLAGS[form]]
         inner_specs = [(x['expect'], x['grade_decimal']) if isinstance(x, dict) else (x, 1) for x in expected]
@@ -519,6 +545,7 @@ class StringSub(Family):
         submitted = [self.WORDS[i] for i in sub]
         text = (',', ', ')[sep].join(submitted)
         calls = 0
+        outcome = 'error'
         for flags in FLAGSETS:
             ordered, pc, le, me = flags
             if flags not in self.graders:
@@ -536,7 +563,9 @@ class StringSub(Family):
             bracket, _, _ = formula([[('cat', 1)], [('dog', 1)]], submitted, ordered, pc, credit=cr)
             if got[0] != 'ok' or abs(got[1]['grade_decimal'] - bracket) > EPS:
                 return Result('wrong', True, viol('stringsub:grade', '%s: got %r expected grade %r' % (where, got, bracket), bracket, got), calls)
-        return Result('ok', True, None, calls)
+            if not (le or me):
+                outcome = 'g=%.3g' % bracket
+        return Result(outcome, True, None, calls)
 
 
 class CreditTables(Family):
@@ -761,7 +790,7 @@ class ReInfer(Family):
 class Delims(Family):
     name = 'delimiter_alphabet'
     timeout = 30.0
-    DELIMS = ['|', '.', '+', '*', '?', '$', '^', '\\', '(', '[', ' ', '\t', '\n', '||', '.*', 'xy', ' | ', ';']
+    DELIMS = ['|', '.', '+', '*', '?', '$', '^', '\\', '(', '[', ' ', '\t', '\n', '||', '.*', 'xy', ' | ', ';', u'\uff1b']
     EXPECTED = [['a', 'b'], ['b', 'c', 'a']]
     rule = ('delimiters that mean something to regular expressions, whitespace delimiters and multi-character ones (%r) x '
             'expected lists %r given as a list and as one delimited string x every submission of 1..3 symbols over '
@@ -812,8 +841,8 @@ class Delims(Family):
                 v = judge(got, 0.5 * bracket, must, may, 'AM', where, 'delims')
                 if v:
                     return Result('wrong', True, v, calls)
-                if not (le or me):
-                    outcome = 'g=%.3g' % (0.5 * bracket)
+                if flags == self.FLAGS[0]:
+                    outcome = 'g=%.3g%s' % (0.5 * bracket, '+msg' if must else '')
         return Result(outcome or 'error', True, None, calls)
 
 
@@ -982,6 +1011,7 @@ def families(tier):
         CreditTables(3, 2, (0, 0.5, 1), answer_credit=1),
         CreditTables(2, 2, (0, 0.5, 1), answer_credit=1e-7),
         CreditTables(3, 2, (0, 0.33, 1.0 / 3, 0.996, 1), tiers=('thorough',)),
+        CreditTables(3, 3, (0.1, 0.3, 0.7), tiers=('thorough',)),       # credits that are not exact binary fractions
         CreditTables(3, 4, (0, 0.5, 1), tiers=('thorough',)),
         CreditTables(4, 3, (0, 0.5, 1), tiers=('thorough',)),
         CreditTables(5, 4, (0, 1), tiers=('thorough',)),
